@@ -148,6 +148,12 @@ fn tokrt(toks: &[&str]) -> String {
             }
         }
         if toks[2]=="integer" {
+            // grammar quirk of the tree-sitter-integerbasic crate: `IF` followed by a one-digit number is not accepted (IF 2 THEN ..), though
+            // the same number written 02 is, and the listing of the latter is the former
+            let b = r.as_bytes();
+            for i in 0..b.len().saturating_sub(4) {
+                if &b[i..i+3]==b"IF " && b[i+3].is_ascii_digit() && (i+4>=b.len() || !b[i+4].is_ascii_digit()) { tags.push("if-one-digit-number"); break; }
+            }
             // grammar quirk of the tree-sitter-integerbasic crate: THEN REM... with a trailing blank parses REM... as a variable
             if src.lines().any(|l| { let u = l.to_uppercase().replace(" ",""); l.ends_with(' ') && u.contains("THENREM") }) { tags.push("then-rem-trailing-blank"); }
         }
